@@ -6,6 +6,8 @@
 (*   decode-then-encode :  re1 = Norm(conc)     (Norm is built into ViaEq)    *)
 (*   encode-decode-encode is a fixpoint :  re2 = re1                          *)
 (*   decoding extracts exactly the components the text denotes                *)
+(*   kind "viastamp": the decoded Via line after the proxy's own stamping of   *)
+(*   its top entry (received / rport) - everything else re-encoded as received *)
 EXTENDS ProxyOps, Json, IOUtils
 Trace == ndJsonDeserialize(IOEnv.TRACE_FILE)
 VARIABLE l
@@ -22,6 +24,10 @@ AccOK(e) ==
 Verdict(e) ==
     IF e.panic # "" THEN "P:C14:panic"
     ELSE IF e.err # "" THEN "P:C14:decoder-rejects-a-value-of-the-grammar"
+    ELSE IF e.kind = "viastamp"
+    THEN LET p1 == SetParam(e.conc[1].params, "received", e.stamp.ip)
+             p2 == IF HasParam(p1, "rport") THEN SetParam(p1, "rport", e.stamp.port) ELSE p1
+         IN IF ~ViaSeqEq(e.re1, [e.conc EXCEPT ![1].params = p2]) THEN "P:C14:Via-entries-distorted-when-the-top-entry-is-stamped" ELSE ""
     ELSE IF e.kind = "via"
     THEN IF ~ViaSeqEq(e.re1, e.conc) THEN "P:C14:re-encoded-Via-differs-from-the-received-one"
          ELSE IF ~ViaSeqEq(e.re2, e.re1) THEN "P:C14:encode-decode-encode-is-not-a-fixpoint"
